@@ -144,11 +144,23 @@ COMMENTS2 = ["note", "a longer comment", "TODO: x -> y", "", "uni → code", "k:
 ANNOTS = [None, None, "draft", "v2", "a_b"]
 
 
+# strings the emitter writes BARE (core3: Rt/BareWord.v): plain, dotted, dashed words, keyword-like prefixes, $VAR variables
+BARE = ["abc", "PROTOCOL_DEFINITION", "v1.2-x", "$USER:name", "$ctx", "trueish", "nullable", "vsx.y", "a.b.c", "x-y-z", "_lead",
+        "CamelCase", "falsey", "nullx", "$1", "Z9", "a_b.c-d", "ACTIVE", "done", "$a:b:c"]
+_BARE_ON = [False]
+
+
+def gen_value3(rng):
+    if _BARE_ON[0] and rng.random() < 0.4:
+        return ("str", rng.choice(BARE))
+    return gen_value(rng)
+
+
 def gen_cval(rng):
     if rng.random() < 0.3:
         n = rng.choice([0, 1, 2, 2, 3, 4, 6])
-        return ("list", [gen_value(rng) for _ in range(n)])
-    return gen_value(rng)
+        return ("list", [gen_value3(rng) for _ in range(n)])
+    return gen_value3(rng)
 
 
 def gen_lead(rng):
@@ -201,7 +213,16 @@ def shape2_line(d, text):
     return f"core2shape {cls} {len(pairs)} " + " ".join(pairs) + " " + astcodec.enc_doc(d)
 
 
-def run2(ctx, n, have_model):
+def run3(ctx, n, have_model):
+    """core3 stream (Rt/BareWord.v): core2 documents whose strings are also drawn from the BARE pool (emitted without quotes)"""
+    _BARE_ON[0] = True
+    try:
+        return run2(ctx, n, have_model, gen="core3")
+    finally:
+        _BARE_ON[0] = False
+
+
+def run2(ctx, n, have_model, gen="core2"):
     """core2 stream: implementation round trip on every generated document + the executable hypothesis of
     C02_text_roundtrip_core2_checked (extracted core2_shape_check) + lexer correspondence."""
     from octave_mcp.core.emitter import emit
@@ -216,43 +237,47 @@ def run2(ctx, n, have_model):
         docs.append(d)
         texts.append(t)
         ctx.count()
-        ctx.nontrivial(("core2", t))
-        case = {"stream": "core2-fragment", "doc": d, "text": t}
+        ctx.nontrivial((gen, t))
+        case = {"stream": gen + "-fragment", "doc": d, "text": t}
         try:
             doc = parse(t)
         except (LexerError, ParserError) as e:
-            ctx.property_failure(case, f"core2 fragment: canonical text rejected by the strict reader ({type(e).__name__})")
+            ctx.property_failure(case, f"{gen} fragment: canonical text rejected by the strict reader ({type(e).__name__})")
             continue
         got = astcodec.doc_to_neutral(doc)
         df = docprops.first_diff(docprops.expected(d), got)
         if df:
-            ctx.property_failure(case, f"core2 fragment: content differs at {df[0]}: expected {df[1]!r}, read {df[2]!r}"[:300])
+            ctx.property_failure(case, f"{gen} fragment: content differs at {df[0]}: expected {df[1]!r}, read {df[2]!r}"[:300])
             continue
         if emit(doc) != t:
-            ctx.property_failure(case, "core2 fragment: canonical text is not a fixpoint of canonicalisation")
+            ctx.property_failure(case, f"{gen} fragment: canonical text is not a fixpoint of canonicalisation")
         _, warns = parse_with_warnings(t)
         bad = [w for w in warns if w.get("type") in ("normalization", "repair_candidate")
                or (w.get("type") == "lenient_parse" and w.get("subtype") in REWRITE_SUBTYPES)]
         if bad:
             ctx.property_failure(dict(case, receipts=[{k: str(v)[:80] for k, v in w.items()} for w in bad[:3]]),
-                                 "core2 fragment: canonical text produced rewrite receipts")
+                                 f"{gen} fragment: canonical text produced rewrite receipts")
     if have_model and docs:
-        res = run_driver("syn", [shape2_line(d, t) for d, t in zip(docs, texts)])
+        cmd = "core3shape" if gen == "core3" else "core2shape"
+        res = run_driver("syn", [shape2_line(d, t).replace("core2shape", cmd, 1) for d, t in zip(docs, texts)])
         ctx.count(len(res))
-        for d, t, r in zip(docs, texts, res):
-            ctx.hist("core2_shape_check", {"0": "not-core2", "1": "shape-ok", "2": "MISMATCH", "3": "LEXERR"}.get(r, r))
-            if r in ("2", "3"):
-                ctx.correspondence_failure({"doc": d, "text": t, "core2_shape_check": r},
-                                           "hypothesis of text_roundtrip_core2_checked: model lexer on emit(d) does not have the shape doc2_sh d")
         dom = run_driver("syn", ["domains " + astcodec.enc_doc(d) for d in docs])
+        need = 40 if gen == "core3" else 24
         for d, t, r, dm in zip(docs, texts, res, dom):
             bits = int(dm) if dm.isdigit() else 0
-            ctx.hist("theorem_domain_core2", "core2+lex_safe2" if bits & 24 == 24 else "core2 only" if bits & 8 else "outside core2")
-            if bits & 24 == 24 and r != "1":
-                ctx.correspondence_failure({"doc": d, "text": t}, "document in the domain of lex_emit_core2 but the extracted lexer model "
+            indom = bits & need == need
+            ctx.hist(gen + "_shape_check", {"0": "not-" + gen, "1": "shape-ok", "2": "MISMATCH", "3": "LEXERR"}.get(r, r)
+                     + ("" if indom else " (outside lex_safe)"))
+            ctx.hist("theorem_domain_" + gen, f"{gen}+lex_safe" if indom else f"{gen} only" if bits & 8 else f"outside {gen}")
+            if gen == "core2" and r in ("2", "3"):
+                ctx.correspondence_failure({"doc": d, "text": t, "core2_shape_check": r},
+                                           "hypothesis of text_roundtrip_core2_checked: model lexer on emit(d) does not have the shape doc2_sh d")
+            if indom and r != "1":
+                ctx.correspondence_failure({"doc": d, "text": t, "shape_check": r},
+                                           f"document in the domain of lex_emit_{gen} but the extracted lexer model "
                                            "does not produce the shape: theorem and extraction disagree")
         bad, nl = lexcorr.compare(texts)
         ctx.count(nl)
         for t, i, m in bad[:10]:
-            ctx.correspondence_failure({"text": t, "impl": i[:400], "model": m[:400]}, "core2 fragment: tokenize differs from the lexer model")
+            ctx.correspondence_failure({"text": t, "impl": i[:400], "model": m[:400]}, f"{gen} fragment: tokenize differs from the lexer model")
     return texts, docs
